@@ -306,7 +306,8 @@ int bisecting_kmeans(struct msa* msa, struct node** ret_n, const float * const *
 #ifdef HAVE_OPENMP
 #pragma omp taskwait
 #endif
-        KALIGN_VERIF_EVENT(KV_KM_JOIN, ret_n, 0, 0, 0);
+        KALIGN_VERIF_EVENT(KV_KM_JOIN, &n->left, 0, 0, 0);
+        KALIGN_VERIF_EVENT(KV_KM_JOIN, &n->right, 1, 0, 0);
 
         *ret_n =n;
         KALIGN_VERIF_EVENT(KV_KM_LEAVE, ret_n, 0, 0, 0);
